@@ -71,6 +71,11 @@ func init() {
 		Thorough: 40 * time.Minute,
 		Run: func(w *fw.W) {
 			o, bound := c04Opts(w.Tier)
+			defer func() {
+				// depth-3 chains over the reduced alphabet
+				ch := &scnCheck{ID: "C04", Judge: c04Judge, Nontrivial: anyFailed}
+				ch.runFamily(w, 1, chainFamily(w.Tier, []scn.Effect{scn.ENone, scn.ESstore}, func(o *scnOpts) { o.Gen.PreEffects = nil }))
+			}()
 			mc.Explore(bound, func(c *mc.Ctx) {
 				s := genScn(c, o)
 				if !w.MineKey(fw.Hash(s.String())) {
